@@ -877,15 +877,20 @@ class TextEngine:
             return {"op": "restart", "how": rng.choice(["xml", "xml_short", "doc", "doc_pretty"], "rhow")}
         what = rng.weighted([("add_heading", 8), ("insert_heading", 3), ("delete_heading", 2 if H else 0), ("retitle", 2 if H else 0), ("relevel", 2 if H else 0),
                              ("add_para", 2), ("set_outline", 2 if self.tocs else 0), ("add_toc", 2 if len(self.tocs) < 2 else 0), ("move_toc", 1 if self.tocs else 0),
-                             ("style_title", 1.5 if self.tocs else 0), ("fill", 6 if self.tocs else 0), ("fill_twice", 3 if self.tocs else 0)], "what20")
+                             ("style_title", 1.5 if self.tocs else 0), ("fill", 6 if self.tocs else 0), ("fill_twice", 3 if self.tocs else 0),
+                             ("toc_to_other_doc", 0.7 if self.tocs else 0)], "what20")
         op = {"op": what, "n": n}
-        if what in ("set_outline", "move_toc", "style_title", "fill", "fill_twice"):
+        if what in ("set_outline", "move_toc", "style_title", "fill", "fill_twice", "toc_to_other_doc"):
             op["ti"] = rng.randint(0, len(self.tocs) - 1, "ti")
         if what in ("add_heading", "insert_heading"):
             op["level"] = rng.randint(1, self.cfg.get("max_level", 3), "level")
             op["text"] = self._heading_text(rng, n)
             if rng.chance(0.2, "lvlform"):
                 op["level_form"] = rng.choice(["float", "str", "bool_or_int"], "lvlformkind")  # Header(2.0, ...), Header("2", ...)
+            elif rng.chance(0.15, "hxml"):
+                # a heading as read from a file (not built by odfdo's text helpers), with no-break / narrow / ideographic spaces
+                op["from_xml"] = True
+                op["text"] = rng.choice(["Chapitre\u00a01\u00a0: d\u00e9but", "n\u202fo 5", "\u5168\u3000\u89d2", "thin\u2009space"], "hxmltext") + f" {n}"
             if rng.chance(0.2, "hspan"):
                 op["span"] = True
             if rng.chance(0.25, "hmark"):
@@ -962,7 +967,13 @@ class TextEngine:
             if name in ("add_heading", "insert_heading"):
                 lf = op.get("level_form")
                 lvl_arg = float(op["level"]) if lf == "float" else (str(op["level"]) if lf == "str" else (True if (lf == "bool_or_int" and op["level"] == 1) else op["level"]))
-                h = Header(lvl_arg, op["text"])
+                if op.get("from_xml"):
+                    from odfdo import Element as _El
+
+                    h = _El.from_tag('<text:h text:outline-level="%d">%s</text:h>' % (op["level"], op["text"]))
+                    feats.append("heading_from_xml")
+                else:
+                    h = Header(lvl_arg, op["text"])
                 if op.get("span"):
                     h.set_span("T1", regex=r"\w+")
                 mk = op.get("mark")
@@ -1065,6 +1076,26 @@ class TextEngine:
                     # a pretty save may add white space inside headings (known C11 finding): the
                     # outline model continues from the headings as the reloaded document has them
                     self._c20_sync_from_doc()
+            elif name == "toc_to_other_doc":
+                # one TOC object, filled here, then moved into ANOTHER document and filled there: it lists that document
+                t = toc_el()
+                i = op.get("ti", 0)
+                if t is not None and i < len(self.tocs):
+                    t.fill()
+                    d2 = Document("text")
+                    d2.body.clear()
+                    d2.body.append(Header(1, f"Elsewhere A {op['n']}"))
+                    d2.body.append(Header(2, f"Elsewhere B {op['n']}"))
+                    d2.body.append(t)  # (moves the element out of this document)
+                    del self.tocs[i]
+                    t.outline_level = 0
+                    t.fill()
+                    got = [xmlref.raw_text(p) for p in xmlref.reparse(lx(t)).find(xmlref.q("text:index-body")).iter(xmlref.X_P)
+                           if p.getparent().tag != xmlref.q("text:index-title")]
+                    want = [f"1. Elsewhere A {op['n']}", f"1.1. Elsewhere B {op['n']}"]
+                    if got != want:
+                        self._outcome = name + ":wrong-document"
+                        return [Violation("C20", "entry-text", name, feats + ["toc_moved_to_another_document"], None, f"the TOC moved into another document and filled there lists {got!r}, that document's headings are {want!r}")]
             elif name in ("fill", "fill_twice"):
                 return self._c20_fill(op, toc_el(), feats)
         except Exception as e:
